@@ -77,6 +77,12 @@ def menu_for(tier):
         m.append(StoreAlgo(0, 0, add="sha224", add_canon="sha224", size=len(w.contents[0]) + 1, invalid=True,
                            tagname=", additional=sha224, wrong size", roles="store_object(additional, wrong size)"))
         m.append(StoreAlgo(1, 0))
+        if w.NK > 2:
+            # a multi-block content (> 64 KiB, not a multiple of any usual buffer size)
+            for canon in ALGOS12:
+                m.append(step.HexDigest(0, canon, canon))
+                m[-1].needs = lambda w: w.bind[0] == 2
+            m.append(step.StoreObj(0, 2, add="sha3_384", add_canon="sha3_384", tagname=", large content"))
         return m
     return menu_fn
 
@@ -85,7 +91,8 @@ import z3   # noqa: E402
 
 
 def main(tier, replay_payload=None):
-    w_args = dict(pids=["a", "b"], contents=[b"x", b"0123456789ab"], formats=[None], sym_dirs=False)
+    big = bytes((i * 7 + i // 251) % 256 for i in range(70001))
+    w_args = dict(pids=["a", "b"], contents=[b"x", b"0123456789ab", big], formats=[None], sym_dirs=False, blksize=4096)
     menu_fn = menu_for(tier)
     from props import C02_xh
     kf = lambda: C02_xh.kernels(tier)
